@@ -120,17 +120,26 @@ PLAN["C15"] = other(
     "boundaryInclusive), find (exact / substring, both tier classes: exactly the matching indices, in order) and "
     "getNonEntries (exactly the positive-length unlabelled stretches of [0, maxTimestamp], ordered, in span) and "
     "validate() of both tier classes in the non-raising modes (False exactly when an entry is invalid, out of span "
-    "or out of order - for arbitrary, not necessarily well-formed tiers) proved for all inputs. Bounded: find with "
-    "regular expressions, timestamps, getValuesInIntervals/AtPoints, invertIntervalList, equality, "
-    "Textgrid.validate and reportingMode='error' on exhaustive small grids.",
-    "Queries agree with their definitions: six queries proved for all inputs, the rest on the stated bounded domain.",
+    "or out of order - for arbitrary, not necessarily well-formed tiers; Textgrid.validate for <= 2 tiers: False "
+    "exactly when a tier's span differs from the textgrid's or a tier is invalid) proved for all inputs. Bounded: "
+    "find with regular expressions, timestamps, getValuesInIntervals/AtPoints, invertIntervalList, equality and "
+    "reportingMode='error' on exhaustive small grids.",
+    "Queries agree with their definitions: seven queries proved for all inputs, the rest on the stated bounded "
+    "domain.",
     ["c15_queries"])
 PLAN["C16"] = other(
     "Deductive: Wav._getIndexAtTime is proved sample-aligned and equal to width*round(t*rate) for the enumerated "
-    "rates/widths and all real t. Bounded: list-of-samples model for all time-addressed operations, conversions, "
-    "save/open, QueryWav.",
-    "Every time-addressed Wav operation acts on whole samples: index computation proved for all times; the byte-slice "
-    "operations checked against the sample model on the stated bounded domain.", ["c16_wav_model"])
+    "rates/widths and all real t; getFrames, deleteSegment, insert, replaceSegment and concatenate are proved, for "
+    "recordings of any length and arbitrary real times inside the recording, to act at exactly those byte offsets: "
+    "whole samples, exactly the addressed bytes returned / removed / inserted, every other byte unchanged and in "
+    "order (quantified postconditions over a slice term); inserting and then deleting the same stretch is proved to "
+    "restore the byte string whenever the insertion time is not exactly half way between two samples (there "
+    "round-half-even breaks the law: known finding KF08). Bounded: list-of-samples model for sequences of "
+    "operations, conversions samples<->bytes, save/open, QueryWav.",
+    "Every time-addressed Wav operation acts on whole samples at the nearest sample index and leaves everything else "
+    "alone: proved per operation for all times and contents (rates/widths enumerated); byte<->sample conversion, "
+    "files and operation sequences checked against the sample model on the stated bounded domain.",
+    ["c16_wav_model"])
 PLAN["C17"] = other(
     "Deductive: Wav._getIndexAtTime and the interval classifier are proved. Bounded: readFramesAtTimes, extractSubwav, "
     "splitAudioOnTier and the generators against the sample model (files under out/tmp).",
@@ -336,6 +345,13 @@ CANARIES = [
      "target": "praatio.audio.Wav._getIndexAtTime",
      "old": "return round(startTime * self.frameRate) * self.sampleWidth", "new": "return round(startTime * self.frameRate * self.sampleWidth)",
      "config": ["rate=8000,width=2"]},
+    {"name": "wav-insert-drops-byte", "props": ["C16"], "file": "praatio/audio.py", "target": "praatio.audio.Wav.insert",
+     "old": "self.frames = self.frames[:i] + frames + self.frames[i:]",
+     "new": "self.frames = self.frames[:i] + frames + self.frames[i + 1:]", "config": ["rate=8000,width=2"]},
+    {"name": "wav-delete-extra-sample", "props": ["C16"], "file": "praatio/audio.py",
+     "target": "praatio.audio.Wav.deleteSegment",
+     "old": "        self.frames = self.frames[:i] + self.frames[j:]",
+     "new": "        self.frames = self.frames[:i] + self.frames[j + self.sampleWidth:]", "config": ["rate=8000,width=2"]},
     {"name": "numtostr-round", "props": ["C01", "C02", "C03"], "file": "praatio/utilities/my_math.py",
      "target": "spec.harness.num_roundtrip",
      "old": "if isclose(inputNum, int(inputNum)):", "new": "if isclose(inputNum, round(inputNum)):"},
@@ -357,6 +373,10 @@ CANARIES = [
      "old": "            if utils.checkIsOvershoot(point.time, self.maxTimestamp, errorReporter):\n                isValid = False",
      "new": "            if utils.checkIsOvershoot(point.time, self.maxTimestamp, errorReporter):\n                pass",
      "config": ["reportingMode=silence"]},
+    {"name": "tgvalidate-span", "props": ["C15"], "file": "praatio/data_classes/textgrid.py",
+     "target": "praatio.data_classes.textgrid.Textgrid.validate",
+     "old": "if self.maxTimestamp != tier.maxTimestamp:", "new": "if self.maxTimestamp < tier.maxTimestamp:",
+     "config": ["k=1,reportingMode=silence"]},
     {"name": "find-substr-swapped", "props": ["C15"], "file": "praatio/data_classes/textgrid_tier.py",
      "target": "praatio.data_classes.textgrid_tier.TextgridTier.find",
      "old": "if matchLabel in entry.label:", "new": "if entry.label in matchLabel:"},
